@@ -1,6 +1,7 @@
 """C08 - overlays and probes in concurrent threads do not interfere."""
 
 import os
+import sys
 import threading
 
 from vlib import common, prorun, sched
@@ -55,7 +56,7 @@ def h(z):
 HOT = {
     "push", "pop", "get", "_apply", "transform_for", "_register", "_set_base", "transform", "_tooler", "_untooler", "_tool",
     "autotool", "_install_tooling", "_uninstall_tooling", "_enter", "_exit", "__enter__", "__exit__", "proceed", "plus",
-    "minus", "wrap_functions", "verify", "problems", "f", "g", "h",
+    "minus", "wrap_functions", "verify", "problems", "f", "g", "h", "resolve", "dict_resolver", "_resolve", "select",
 }
 OPCODE_FNS = {"push", "pop", "_apply", "_tooler", "_untooler"}
 
@@ -72,6 +73,9 @@ SCENARIOS = {
     # a raw overlay on a function that its own thread never tools (inert on its own): while another
     # thread's probe instruments the function it may see events, but its calls must return normally
     "inert-overlay-vs-probe": [[("inert", "f > a", "f", 1)] * 2, [("probe", "f > b", "f", 5)] * 2],
+    # one thread creates its probe through the absolute reference of the function (resolved in
+    # codefind's registry) while the other thread's activation / deactivation swaps the function's code
+    "reference-vs-probe": [[("refprobe", "a", "f", 1)] * 2, [("probe", "f > b", "f", 5)] * 2],
     "refused-activation-vs-probe": [[("probe", "f > a", "f", 1)] * 2, [("refused", ("h > w", "f > nosuchvar"), "f", 5), ("probe", "h > w", "h", 9)]],
 }
 
@@ -125,6 +129,12 @@ def make_body(ns, script):
                 except SelectorError:
                     pass
                 r = ns[fn](arg)
+            elif kind == "refprobe":
+                from ptera import refstring
+
+                with probing(refstring(ns[fn]) + " > " + sel, env=ns) as p:
+                    p.subscribe(lambda d, evs=evs: evs.append((dict(d), threading.get_ident() == me)))
+                    r = ns[fn](arg)
             elif kind == "inert":
                 so = select(sel, env=ns)
                 with BaseOverlay(Immediate(so, trigger=lambda d, evs=evs: evs.append(({k: c.value for k, c in d.items()}, threading.get_ident() == me)))):
@@ -160,7 +170,7 @@ def check_outcome(ns, scenario, run, orig):
         for (kind, sel, fn, arg), (r, evs) in zip(script, got):
             if r != ref_result(fn, arg):
                 probs.append({"thread": tid, "problem": f"{fn}({arg}) returned {r}, sequentially {ref_result(fn, arg)}"})
-            exp = ref_events(sel, fn, arg) if kind not in ("call", "refused") else []
+            exp = ref_events(sel if kind != "refprobe" else f"{fn} > {sel}", fn, arg) if kind not in ("call", "refused") else []
             if kind == "inert":
                 # whether it sees the events depends on the other thread's probe; it must not see
                 # anything else
@@ -187,14 +197,17 @@ class Env:
 
         self.scratch = scratch
         self.registry = sched.Registry()
-        self.ncoop = sched.cooperative_locks([overlay, transform, probe], self.registry)
+        from ptera import selector, utils
+
+        self.ncoop = sched.cooperative_locks([overlay, transform, probe, selector, utils], self.registry)
         pt = os.path.dirname(ptera.__file__)
-        self.files = {os.path.join(pt, n) for n in ("transform.py", "overlay.py", "probe.py")}
+        self.files = {os.path.join(pt, n) for n in ("transform.py", "overlay.py", "probe.py", "selector.py")}
         self.counter = 0
 
     def fresh(self, warm, scenario):
         self.counter += 1
         mod = prorun.load_src(SRC, self.scratch, f"c08m_{self.counter % 40}")
+        sys.modules[mod.__name__] = mod  # absolute references import the module by name
         ns = vars(mod)
         orig = {n: ns[n].__code__ for n in ("f", "g", "h")}
         if warm:
@@ -204,6 +217,8 @@ class Env:
                 for kind, sel, fn, arg in script:
                     if kind in ("call", "refused", "inert"):
                         continue
+                    if kind == "refprobe":
+                        sel = f"{fn} > {sel}"
                     with probing(sel, env=ns):
                         pass
         return mod, ns, orig
